@@ -254,8 +254,22 @@ def headers_and_tables(ctx, ld):
         run.check(ok, 'R23', init.where, init.qualname, '%s table keys %s' % (attr, keys), 'strategy table of %s changed' % attr)
         if ok and attr == 'self.caster':
             tab = {u(k): v for k, v in zip(vals[0].value.keys, vals[0].value.values)}
+
+            def as_fn(e):
+                # a table entry as (parameters, returned expression): a lambda, or a method of the class (self.m / load.m, static or
+                # not) whose body is a single return
+                if isinstance(e, ast.Lambda):
+                    return [x.arg for x in e.args.args], e.body
+                if isinstance(e, ast.Attribute) and isinstance(e.value, ast.Name) and e.value.id in ('self', 'cls', ld.name):
+                    m_ = ld.methods.get(e.attr)
+                    if m_ is not None and not isinstance(m_.node, ast.Lambda):
+                        body_ = [x for x in m_.node.body if not (isinstance(x, ast.Expr) and isinstance(x.value, ast.Constant))]
+                        if len(body_) == 1 and isinstance(body_[0], ast.Return) and body_[0].value is not None:
+                            return [p_ for p_ in m_.params if p_ not in ('self', 'cls')], body_[0].value
+                return None, None
             a = tab['self.CAST_DO_NOTHING']
-            run.check(isinstance(a, ast.Lambda) and u(a.body) == a.args.args[1].arg, 'R23', init.where, init.qualname,
+            pa_, ba_ = as_fn(a)
+            run.check(pa_ is not None and len(pa_) == 2 and u(ba_) == pa_[1], 'R23', init.where, init.qualname,
                       'CAST_DO_NOTHING: identity', 'the do-nothing cast strategy alters the stream')
             b = tab['self.CAST_WITH_SCHEMA']
             okb = (isinstance(b, ast.Lambda) and len(b.args.args) == 2 and
@@ -265,7 +279,8 @@ def headers_and_tables(ctx, ld):
             run.check(okb, 'R23', init.where, init.qualname,
                       'CAST_WITH_SCHEMA: schema_validator(res, it, on_error=on_error)', 'schema casting ignores on_error')
             c = tab['self.CAST_TO_STRINGS']
-            run.check(isinstance(c, ast.Lambda) and u(c.body) == 'self.stringer(%s)' % c.args.args[1].arg, 'R23', init.where,
+            pc_, bc_ = as_fn(c)
+            run.check(pc_ is not None and len(pc_) == 2 and u(bc_) == 'self.stringer(%s)' % pc_[1], 'R23', init.where,
                       init.qualname, 'CAST_TO_STRINGS: self.stringer(it)', 'the strings strategy does not stringify')
     # limit_rows etc. stored
     for a in ('strip', 'limit_rows', 'resources', 'name'):
@@ -314,14 +329,14 @@ def selection(ctx, ld):
               'descriptor and iterator lists of a loaded data package are not filled under the same selection')
     # tuple branch: for d in <pair descriptor>['resources']: if matcher.match(d['name']): descriptors.append(d)
     dl = [n for n in ast.walk(sp.node) if isinstance(n, ast.For) and isinstance(n.target, ast.Name) and
-          match_expr("__DP['resources']", n.iter) is not None and
+          match_expr("__DP['resources']", resolve_here(n.iter)) is not None and
           any(match_expr('self.resource_descriptors.append(%s)' % n.target.id, c) is not None for c in ast.walk(n))]
     ok = len(dl) == 1
     pol_d = None
     mname = dpx = None
     if ok:
         dv_ = dl[0].target.id
-        dpx = u(dl[0].iter.value)
+        dpx = u(resolve_here(dl[0].iter).value)
         seen_pol = set()
         for p_ in _En(where=sp.qualname).body_paths(dl[0]):
             pol_ = None
